@@ -43,12 +43,14 @@ class SimSet(set):
 
     order_seed = 0   # 0: canonical sorted order; k>0: seeded permutation of it
     iterations = 0   # how often an order was actually consumed (probe)
+    permuted = 0     # ... with a plan-chosen permutation in force (the fault count)
 
     def __iter__(self):
         items = sorted(set.__iter__(self), key=canon_key)
         if len(items) > 1:
             SimSet.iterations += 1
             if SimSet.order_seed:
+                SimSet.permuted += 1
                 random.Random(f'{SimSet.order_seed}:{len(items)}').shuffle(items)
         return iter(items)
 
